@@ -30,6 +30,7 @@ type SpecEnv struct {
 	alloc0 string // allocation watermark "before" (for fresh())
 	cOwn        bool     // evaluating the own contract of a C function (parameters have their declared types)
 	bound       []string // names of the bound variables in scope
+	pats        *[]string // trigger candidates of the innermost enclosing quantifier (selects on its bare bound variable)
 	iter        string // map iterator of the enclosing loop (for visited())
 	iterKeySort string
 }
@@ -668,6 +669,8 @@ func (e *SpecEnv) evalCall(c *ast.CallExpr) SVal {
 		q := g.fresh(k)
 		sub := e.bind(k, SVal{S: q, T: typInt, Sort: g.M.IX()})
 		sub.bound = append(append([]string{}, e.bound...), q)
+		var pats []string
+		sub.pats = &pats
 		var guard, body string
 		if len(args) == 4 {
 			lo, hi := e.toIX(e.eval(args[1])), e.toIX(e.eval(args[2]))
@@ -676,6 +679,7 @@ func (e *SpecEnv) evalCall(c *ast.CallExpr) SVal {
 			if base := e.indexBase(args[3], k); base != "" && base != g.M.IxLit(0) {
 				sub = e.bind(k, SVal{S: g.M.ixSub(q, base), T: typInt, Sort: g.M.IX()})
 				sub.bound = append(append([]string{}, e.bound...), q)
+				sub.pats = &pats
 				guard = sAnd(g.M.ixLe(g.M.ixAdd(base, lo), q), g.M.ixLt(q, g.M.ixAdd(base, hi)))
 			} else {
 				guard = sAnd(g.M.ixLe(lo, q), g.M.ixLt(q, hi))
@@ -686,6 +690,18 @@ func (e *SpecEnv) evalCall(c *ast.CallExpr) SVal {
 			body = sub.eval(args[1]).S
 		}
 		if name == "forall" {
+			if len(pats) > 0 {
+				// explicit triggers: the sequence elements indexed by the bare bound variable (at / ptAt)
+				seen := map[string]bool{}
+				var ps []string
+				for _, p := range pats {
+					if !seen[p] {
+						seen[p] = true
+						ps = append(ps, ":pattern ("+p+")")
+					}
+				}
+				return SVal{S: fmt.Sprintf("(forall ((%s %s)) (! %s %s))", q, g.M.IX(), sImp(guard, body), strings.Join(ps, " ")), T: bt, Sort: "Bool"}
+			}
 			return SVal{S: fmt.Sprintf("(forall ((%s %s)) %s)", q, g.M.IX(), sImp(guard, body)), T: bt, Sort: "Bool"}
 		}
 		return SVal{S: fmt.Sprintf("(exists ((%s %s)) %s)", q, g.M.IX(), sAnd(guard, body)), T: bt, Sort: "Bool"}
@@ -871,6 +887,18 @@ func (e *SpecEnv) evalCall(c *ast.CallExpr) SVal {
 			}
 			sub = &n
 			return sub.eval(p.Body)
+		}
+		if name == "mpairs" {
+			return e.evalPairs(args)
+		}
+		if cf, ok := chunkFnOf(name); ok {
+			return e.evalChunk(cf, args)
+		}
+		if v, ok := e.evalSeq(name, args); ok {
+			return v
+		}
+		if op, gather, ok := foldOpOf(name); ok {
+			return e.evalFold(name, op, gather, args)
 		}
 		if name == "seqid" && len(args) == 1 {
 			if v := e.eval(args[0]); v.Sort == "Str" {
